@@ -12,6 +12,7 @@ import Driver.C06Mon
 import Driver.C17Mon
 import Driver.C03Mon
 import Driver.C18Mon
+import Driver.C20Mon
 open Kv
 
 structure MState where
@@ -28,6 +29,7 @@ def dispatchMon (st : MState) (prop : String) (l : Line) : MState × String :=
   | "C01" => (st, Drv.C01.stepMon l)
   | "C02" => (st, Drv.C02.stepMon l)
   | "C12" => (st, Drv.C12.step l)
+  | "C20" => (st, Drv.C20.stepMon l)
   | "C04" => let (s, r) := Drv.Flow.stepMon "C04" st.c04 l; ({ st with c04 := s }, r)
   | "C07" => let (s, r) := Drv.Flow.stepMon "C07" st.c07 l; ({ st with c07 := s }, r)
   | "C14" => (st, Drv.C14.stepMon l)
